@@ -59,10 +59,14 @@ def run(chk) -> None:
     repo = chk.repo
     c = spec("constants.json")["C17"]
     chk.explanation = (
-        "Static rules on clashfinder.py: radii per atom type obtained by abstract evaluation of AtomType.radius; the KD-tree query argument and the acceptance threshold are folded for both "
-        "molprobity settings and every pair of atom types, and the former must cover the latter; accept region of the distance test evaluated over its cells; closed-world classification of "
-        "the filters with exactly one per option; collection rule; one record per query pair; positional CLI arguments vs parameter names; accumulator updates read what they write; occupancy "
-        "defaults by `is None` only; both output loops iterate the same containers with the same ordering."
+        "Static rules on clashfinder.py: radii per atom type obtained by abstract evaluation of AtomType.radius (module-level tables folded). find_clashes is read from the ast and evaluated "
+        "(sa/blockeval + rule-supplied stubs, KD-tree modelled as 'every pair within the radius once'; nothing of the library is imported or run) on one synthetic structure of well separated "
+        "two-atom clusters, one per input class (16 ordered type pairs x 4 distance cells just below/above r_a+r_b and r_a+r_b+0.5; same/different residue x nucleotide flags x equal/different "
+        "names x 5 occupancy classes incl. 0.0 and missing x 2 distance cells; atoms of no known type), for all 32 option combinations, plus inputs with fewer than two atoms; the listed pairs, "
+        "record roles and sums are compared with the pairwise van-der-Waals definition; the evaluated KD-tree radius must cover the largest threshold; every atomic condition met is classified as "
+        "a function of one feature of the definition (closed world). main is evaluated the same way on a representative clash list with tokens for chains, residues and atoms: listed lines and "
+        "CSV rows = the clashes, every atom under its own residue (key and record of a filed clash agree on orientation), printed maxima, same order in both outputs, independence of set iteration "
+        "order. Positional CLI arguments vs parameter names; accumulator updates read what they write; no truthiness default on occupancies. The pinned-form rules run only when a function cannot be evaluated."
     )
     chk.trusted = ["CPython ast", "scipy KDTree.query_pairs returns every pair within the radius exactly once"]
     chk.assumptions = ["float distance arithmetic is not decided", "atom typing by first letter of the name as coded (C/N/O/P)"]
@@ -368,9 +372,11 @@ def check_cli(chk, fi) -> None:
 
 
 MANIFEST_ENTRY = {
-    "text": "Static decision on the current source of clashfinder.py: the KD-tree radius (folded for both modes) is at least r_a + r_b + extra for every pair of atom types, so no accepted pair is outside the search; accept region of the "
-    "distance test; extra = 0.5 iff MolProbity; each option guards exactly one filter and nothing else skips a pair; atoms considered and record shape; CLI arguments go to same-named parameters; running maxima read the entry they write; "
-    "occupancy defaults only for None; report and CSV loops agree. Completeness of a search radius is a for-all-pairs claim decided here for all type pairs at once.",
+    "text": "Static decision on the current source of clashfinder.py: the KD-tree radius (evaluated for all 32 option combinations) is at least r_a + r_b + extra for every pair of atom types, so no accepted pair is outside the search; "
+    "the pairs listed by find_clashes, evaluated on one representative per input class (type pair x distance cell, residue/nucleotide configuration, name equality, occupancy class) for all 32 option combinations, are exactly those of the "
+    "van-der-Waals definition (extra = 0.5 iff MolProbity; each option guards exactly one filter; occupancy rule and sum; atoms considered; record roles; each pair once) and nothing else skips a pair (closed world of the atomic conditions); "
+    "CLI arguments go to same-named parameters; running maxima read the entry they write; occupancy defaults only for None; report and CSV list exactly the clashes found, every atom under its own residue (the key a clash is filed under and "
+    "the stored record agree on the order of the pair), printed maxima equal the maxima of the listed lines, both outputs in the same order and independent of set iteration order. Completeness of a search radius is a for-all-pairs claim decided here for all type pairs at once.",
     "note": "Trusted: KD-tree completeness and pair uniqueness; float distance not decided.",
-    "technique": "static analysis: abstract evaluation of the radius property per Enum member, constant folding of radius vs threshold over all type pairs, accept-region evaluation, closed-world guard classification, argument/parameter agreement",
+    "technique": "static analysis: abstract evaluation of the radius property per Enum member, evaluation of find_clashes / main read from the ast on input-class representatives with stubs (finite partition, nothing of the library imported or run), closed-world classification of atomic conditions by feature, argument/parameter agreement; pinned-form rules only as fallback",
 }
